@@ -82,10 +82,10 @@ wall-clock time `now`; `false` = rejected with `ValueError` (state unchanged) -/
 def update (s : TrkState) (m : Int) (attrs : List (String × Val)) (ts now : Int) :
     TrkState × List (Ev × Int) × Bool :=
   -- ensure_timestamp_constraints
-  let orderOk := match s.ordered, s.tracks.getLast? with
-    | true, some latest => ¬ (ts < latest.lu)
+  let orderOk : Bool := match s.ordered, s.tracks.getLast? with
+    | true, some latest => !(decide (ts < latest.lu))
     | _, _ => true
-  if ¬ orderOk then (s, [], false)
+  if !orderOk then (s, [], false)
   else
     match s.tracks.find? (·.mmsi = m) with
     | some old =>
